@@ -378,7 +378,19 @@ def run(chk):
     if not dev:
         chk.note("the interrupted legacy bootstrap no longer fails on this tree: Dev_BootstrapNotAtomic = FALSE is "
                  "the variant bound to the code")
-    chk.add(evaluations=len(traces), distinct_nontrivial=len(seen), traces_validated_against_impl=matched,
+    # several migration sources in one call (the DBOS runtime on SQLite: sources=[server, dbos]); versions are per package
+    two = drv.two_source_cases(chk.work, ref)
+    if two:
+        v2, _ = tracecheck.observe(chk, "obs/Obs_C28_sources.tla", "obs/Obs_C28_sources.cfg", {"traces": two}, name="obs_sources")
+        for i, c in enumerate(two, 1):
+            if v2[i][0] != "ok":
+                chk.violation("obs:sources:%s:%s" % (v2[i][0], c["start"].split(":")[0]),
+                              "run_migrations(sources=[server, dbos]) from start state %s: %s" % (c["start"], v2[i][0]),
+                              {"start": c["start"], "error": c["err"], "rows": c["rows"], "expected_rows": c["want_rows"],
+                               "missing_objects": sorted(set(c["ref"]) - set(c["final"]))[:10],
+                               "extra_objects": sorted(set(c["final"]) - set(c["ref"]))[:10]})
+    chk.add(two_source_start_states=len(two))
+    chk.add(evaluations=len(traces) + len(two), distinct_nontrivial=len(seen) + len(two), traces_validated_against_impl=matched,
             stated_traces=n_stated, released_start_states=len(rel_starts), single_kill_traces=n_crash1, double_kill_traces=n_crash2,
             model_schedules_replayed=n_model, real_kills=n_real_kill, code_follows_dev_variant=bool(dev))
     for idx in (0, n_stated, len(traces) - 1):
